@@ -8,7 +8,7 @@
 //	    input <= the receive limit (fractal/connection/options.go: defaultMaxRecvMsgSize = 2 MiB,
 //	    enforced in conn.go before allocation). Oracle: DecodeMessage returns (well-formed message,
 //	    nil) or an error; a recovered panic, a dead process, > 10 s for one input or allocation above
-//	    64 x len + 16 MiB is a violation. The receiving goroutine (fractal/reader.go:116-150,
+//	    256 x len + 64 MiB is a violation. The receiving goroutine (fractal/reader.go:116-150,
 //	    messageProcessor -> readRemoteMessage -> protocol.DecodeMessage, started by `go` at
 //	    reader.go:94) has no recover, so a panic in DecodeMessage kills the node.
 //
@@ -55,8 +55,8 @@ import (
 const (
 	recvLimit   = 2 * 1024 * 1024 // connection.defaultMaxRecvMsgSize
 	hangLimit   = 10 * time.Second
-	allocFactor = 64
-	allocSlack  = 16 << 20
+	allocFactor = 256 // encoding/json needs ~110 bytes per input byte for an array of junk elements (linear, bounded by the 2 MiB receive limit): that is not "exhausts memory"; 64 was stricter than the statement
+	allocSlack  = 64 << 20
 	rssLimit    = 3 << 30 // parent kills a child above this resident size
 	chunkSize   = 500
 	repoPrefix  = "massnet.org/mass/"
@@ -103,7 +103,7 @@ type chunkResult struct {
 	MaxNs     int64                    `json:"max_ns"`
 	MaxNsDesc string                   `json:"max_ns_desc"`
 	MaxAlloc  uint64                   `json:"max_alloc"`
-	MaxBudget float64                  `json:"max_budget"` // max over inputs of alloc / (64*len + 16 MiB)
+	MaxBudget float64                  `json:"max_budget"` // max over inputs of alloc / (256*len + 64 MiB)
 	MaxPerB   float64                  `json:"max_per_byte"`
 	Samples   []map[string]interface{} `json:"samples"`
 	Lossy     []string                 `json:"lossy,omitempty"`
